@@ -24,6 +24,10 @@ for d in sorted(glob.glob(os.path.join(VERIF, "seeded", "C*-*"))):
         failed = [l for l in lines if l.startswith("FAILED") or l.startswith("ERROR")]
     else:
         failed = []
+    if ev.get("tests_tail"):
+        # prefer the suite result measured in the same evaluation run; fall back to a separate confirmation run if that one was flaky
+        if ev.get("tests_pass") or not tests:
+            tests = ev["tests_tail"]
     if ev:
         checks = ev.get("checks", {})
         caught_by = [k for k, v in checks.items() if v["exit"] == 1]
